@@ -5,6 +5,8 @@ import PfVerif.Driver.BS
 import PfVerif.Driver.Hedge
 import PfVerif.Driver.Risk
 import PfVerif.Driver.DType
+import PfVerif.Driver.Fit
+import PfVerif.Driver.Grad
 namespace PfVerif.Driver
 open Lean
 
@@ -35,6 +37,8 @@ def dispatch (op : String) (j : Json) : R Json :=
   | "oce" => opOce j
   | "cash_default" => opCashDefault j
   | "dt_seq" => opDtSeq j
+  | "fit" => opFit j
+  | "grad" => opGrad j
   | _ => .error s!"unknown op {op}"
 
 end PfVerif.Driver
